@@ -126,6 +126,8 @@ def gen_plan(tape, cfg):
         if k in ("get_model", "get_values"):
             # the user may wait before asking: slower members then finish meanwhile
             o["pause"] = tape.choice([0.0, 0.0, 30.0], "pause")
+        if k == "get_values":
+            o["many"] = tape.choice([0, 0, 4, 7, 200], "get_values.many")
         if k in ("solve", "shortcut") or k in ONESHOT:
             nsolves += 1
         ops.append(o)
@@ -390,7 +392,19 @@ def execute(plan, tape):
                         # a (mistaken) value request right after the failure: any exception is fine,
                         # a call that never returns is not
                         try:
-                            api("get_value", pf.get_value, mgr.get_symbol(sorted(symbols)[0]))
+                            if tape.chance(1, 2, "ask.after.failure.model"):
+                                mdl_ = api("get_model", pf.get_model)
+                                # no member answered this query: a model handed out now is not one of the
+                                # current assertions unless it happens to satisfy them
+                                a_ = {}
+                                for f_ in live():
+                                    for n_ in bp.symbols_of(f_):
+                                        a_[n_] = mdl_.get_value(mgr.get_symbol(n_)).constant_value()
+                                if not all(bp.evaluate(f_, a_) for f_ in live()):
+                                    raise Violation("C19:stale-model",
+                                                    "after a solve() that failed, get_model() returned %s which falsifies the current assertions" % a_)
+                            else:
+                                api("get_value", pf.get_value, mgr.get_symbol(sorted(symbols)[0]))
                             probe("value_request_after_failed_solve_returned")
                         except Violation as v_:
                             if ":raised:" not in v_.sig:
@@ -492,6 +506,18 @@ def execute(plan, tape):
                     continue
                 if any(n not in known for n in syms):
                     continue
+                if syms and o.get("many"):
+                    # one get_values() call with repeated terms (optionally very many of them): every
+                    # term gets its own value, and the call returns however long the list is
+                    names_ = sorted(syms)
+                    reps = [names_[j % len(names_)] for j in range(o["many"])]
+                    terms = [mgr.get_symbol(n_) for n_ in reps]
+                    vals = api("get_values", pf.get_values, terms)
+                    for n_, t_ in zip(reps, terms):
+                        if t_ not in vals or vals[t_].constant_value() != a[n_]:
+                            raise Violation("C19:values-mixed-up", "get_values(%d terms with repeats) gave %s = %s, get_value gave %s" %
+                                            (len(terms), n_, vals.get(t_), a[n_]))
+                    probe("get_values_with_repeats" + ("_bulk" if o["many"] > 50 else ""))
                 for f in live():
                     if not bp.evaluate(f, a):
                         raise Violation("C19:values-unsat", "get_value()s after sat gave %s which falsifies %s" %
